@@ -231,6 +231,8 @@ func c08Subjects(run *vfRun) []*c08Subject {
 	add("a@b@example.com", "multi-at")
 	add("a@example.com@evil.org", "multi-at")
 	add("u@example.com@sub.example.com", "multi-at")
+	add("u@sub.example.com@evil.org", "multi-at")
+	add("u@sub.example.com@example.org@x.evil.org", "multi-at")
 	add("@example.com", "empty-local")
 	add("u@", "empty-domain")
 	add("u", "no-at")
@@ -837,6 +839,7 @@ func c08AuthOnly(cw *c08World) {
 		{Label: "multi-at", Email: "a@b@example.com", Groups: []string{"x,y"}},
 		{Label: "upper", Email: "U@EXAMPLE.COM", Groups: []string{"A"}},
 		{Label: "lookalike", Email: "toto@evilexample.com", Groups: []string{"ab", "a "}},
+		{Label: "multi-at-inner-domain", Email: "a@example.com@evil.org", Groups: []string{"a"}},
 	}
 	for i, s := range sessions {
 		b := vfNewBrowser("")
@@ -878,7 +881,11 @@ func c08AuthOnly(cw *c08World) {
 		eopts := []c08QOpt{{Label: "absent"}, c08Q("allowed_emails", "empty", ""), c08Q("allowed_emails", "match", em), c08Q("allowed_emails", "nomatch", "tete@example.com"), c08Q("allowed_emails", "list-match", "tete@example.com,"+em),
 			c08Q("allowed_emails", "list-nomatch", "tete@example.com,tutu@example.com"), c08Q("allowed_emails", "repeat-match", "tete@example.com", em), c08Q("allowed_emails", "empty-then-nomatch", "", "tete@example.com"),
 			c08Q("allowed_emails", "lookalike", "x"+em+","+em+"x,"+strings.Replace(em, "@", "@x", 1))}
-		dopts := []c08QOpt{{Label: "absent"}, c08Q("allowed_email_domains", "empty", ""), c08Q("allowed_email_domains", "match", dom), c08Q("allowed_email_domains", "nomatch", "other.org"),
+		inner := "example.com" // for an address with several '@': the text between the first two
+		if at := strings.Split(em, "@"); len(at) > 2 {
+			inner = at[1]
+		}
+		dopts := []c08QOpt{{Label: "absent"}, c08Q("allowed_email_domains", "inner-part", inner, "*."+inner), c08Q("allowed_email_domains", "empty", ""), c08Q("allowed_email_domains", "match", dom), c08Q("allowed_email_domains", "nomatch", "other.org"),
 			c08Q("allowed_email_domains", "list-match", "other.org,"+dom), c08Q("allowed_email_domains", "list-nomatch", "other.org,a."+dom), c08Q("allowed_email_domains", "repeat-match", "other.org", dom),
 			c08Q("allowed_email_domains", "empty-then-nomatch", "", "other.org"), c08Q("allowed_email_domains", "dot-parent", "."+parent), c08Q("allowed_email_domains", "star-parent", "*."+parent),
 			c08Q("allowed_email_domains", "parent-exact", "x"+parent+","+strings.TrimPrefix(parent, "e")), c08Q("allowed_email_domains", "suffix-lookalike", "."+strings.TrimPrefix(dom, dom[:1])+",*."+strings.TrimPrefix(dom, dom[:2])),
